@@ -430,6 +430,7 @@ class Run:
             if f.get('property') != h.get('finding_pid', self.pid) or f.get('harness') != h.get('finding_harness', h['name']) or f.get('status') != 'open': continue
             if f.get('configs') and not any(all(str(cfg.get(k)) == str(v) for k, v in c.items()) for c in f['configs']): continue
             wcfg = {k: v for k, v in cfg.items() if not k.startswith('_')}; wcfg.update(f.get('witness_config', {}))
+            wcfg = {k: v for k, v in wcfg.items() if v is not None}   # null in a witness configuration: the witness is replayed WITHOUT that per-query constant
             wkey = (f['id'], h['name'], json.dumps(wcfg, sort_keys=True))
             with LOCK: known = self.witness_cache.get(wkey)
             if known is None:
